@@ -626,6 +626,9 @@ def run(ctx: Ctx) -> Result:
     else:
         run_iter(ctx, res, now + 0.62 * budget)
         run_tee(ctx, res, tee_corpus, now + budget)
+    # the smallest failing input of every kind first (check_main reports one per signature)
+    res.violations.sort(key=lambda v: len(repr(v.case)))
+    res.disagreements.sort(key=lambda d: len(repr(d.case)))
     return res
 
 
